@@ -33,12 +33,17 @@ impl EncoderState {
         ensures
             final(self).wf(),   // @obl:C06.V.cobs.encoder_push
             final(self).ci() <= old(self).ci() + 255,   // @obl:C06.V.cobs.encoder_push
+            // explicit form of the step (what Cobs<B>::try_push consumes)
+            data == 0 ==> r == PushResult::ModifyFromStartAndSkip((old(self).ci() as usize, old(self).n() as u8)) && final(self).ci() == old(self).ci() + old(self).n() && final(self).n() == 1,   // @obl:C06.V.cobs.encoder_push
+            data != 0 && old(self).n() < 254 ==> r == PushResult::AddSingle(data) && final(self).ci() == old(self).ci() && final(self).n() == old(self).n() + 1,   // @obl:C06.V.cobs.encoder_push
+            data != 0 && old(self).n() == 254 ==> r == PushResult::ModifyFromStartAndPushAndSkip((old(self).ci() as usize, 0xFFu8, data)) && final(self).ci() == old(self).ci() + 255 && final(self).n() == 1,   // @obl:C06.V.cobs.encoder_push
             // the encoder step, applied to ANY output satisfying the machine invariant, is the abstract machine's push
             forall|out: Seq<u8>| inv(old(self).machine(out)) ==> #[trigger] final(self).machine(apply(out, r)) == push(old(self).machine(out), data),   // @obl:C06.V.cobs.encoder_push""",
              obls=["C06.V.cobs.encoder_push"]),
         dict(kind="fn", root="cobs", file=E, within=[r"^impl EncoderState$"], name="finalize", qual="cobs::EncoderState::finalize",
              sig="""        requires self.wf()
-        ensures forall|out: Seq<u8>| inv(self.machine(out)) ==> #[trigger] out.update(r.0 as int, r.1).push(0u8) == finalize(self.machine(out)),   // @obl:C06.V.cobs.encoder_finalize""",
+        ensures forall|out: Seq<u8>| inv(self.machine(out)) ==> #[trigger] out.update(r.0 as int, r.1).push(0u8) == finalize(self.machine(out)),   // @obl:C06.V.cobs.encoder_finalize
+            r.0 as int == self.ci() && r.1 as int == self.n(),   // @obl:C06.V.cobs.encoder_finalize""",
              obls=["C06.V.cobs.encoder_finalize"]),
         dict(kind="raw", name="<impl-close>", text="}\n"),
     ],
